@@ -1,105 +1,211 @@
-"""Discharge obligations: z3 (Python API, one query per process slot) and cvc5 (binary)."""
+"""Discharge obligations with a z3 / cvc5 portfolio (one subprocess each, hard timeouts)."""
 from __future__ import annotations
 
 import os
+import shutil
 import subprocess
 import tempfile
 import time
-from concurrent.futures import ProcessPoolExecutor
+from concurrent.futures import ThreadPoolExecutor
 
 import z3
 
-CVC5 = "/usr/bin/cvc5"
+CVC5 = shutil.which("cvc5") or "/usr/bin/cvc5"
+Z3 = shutil.which("z3-new") or shutil.which("z3") or "/usr/bin/z3"
+SCRATCH = "/var/tmp"
 
 
-def to_smt2(pc, goal):
+def _has_quant(e):
+    todo = [e]
+    seen = 0
+    while todo and seen < 20000:
+        x = todo.pop()
+        seen += 1
+        if z3.is_quantifier(x):
+            return True
+        todo.extend(x.children())
+    return False
+
+
+def to_smt2(pc, goal, light=False):
+    from .types import BACKGROUND
+
+    if light:
+        pc = [p for p in pc if not _has_quant(p)]
+
     s = z3.Solver()
+    for a in BACKGROUND:
+        s.add(a)
     for p in pc:
         s.add(p)
     s.add(z3.Not(goal))
     return s.to_smt2()
 
 
-def _run_z3(args):
-    smt2, timeout_ms, want_model = args
-    t0 = time.time()
-    try:
-        ctx = z3.Context()
-        s = z3.Solver(ctx=ctx)
-        s.set("timeout", timeout_ms)
-        s.from_string(smt2)
-        r = s.check()
-        model = None
-        reason = None
-        if r == z3.sat and want_model:
-            m = s.model()
-            model = {}
-            for d in m.decls():
-                try:
-                    model[d.name()] = str(m[d])[:2000]
-                except Exception:
-                    pass
-        if r == z3.unknown:
-            reason = s.reason_unknown()
-        return (str(r), model, time.time() - t0, reason)
-    except Exception as e:  # noqa: BLE001
-        return ("error", None, time.time() - t0, repr(e))
+def _cmd(backend, path, timeout_s):
+    if backend == "z3":
+        return [Z3, f"-T:{int(timeout_s)}", "model_validate=false", path]
+    return [CVC5, "--strings-exp", "--produce-models", f"--tlimit={int(timeout_s * 1000)}", path]
 
 
-def _run_cvc5(args):
-    smt2, timeout_ms = args
+def _parse(out):
+    lines = (out or "").strip().splitlines()
+    head = lines[0].strip() if lines else ""
+    if head in ("sat", "unsat", "unknown"):
+        return head, "\n".join(lines[1:])[:6000]
+    if head == "timeout":
+        return "unknown", "timeout"
+    return "error", (out or "")[:400]
+
+
+def _solve_one(args):
+    smt2, timeout_s, mode = args  # mode: 'first' (portfolio) | 'both'
     t0 = time.time()
+    fd, path = tempfile.mkstemp(suffix=".smt2", dir=SCRATCH)
+    with os.fdopen(fd, "w") as f:
+        f.write("(set-logic ALL)\n" + smt2.replace("(check-sat)", "(check-sat)\n(get-model)"))
+    procs = {}
+    results = {}
     try:
-        with tempfile.NamedTemporaryFile("w", suffix=".smt2", delete=False, dir="/var/tmp") as f:
-            txt = smt2.replace("(check-sat)", "")
-            f.write("(set-logic ALL)\n" + txt + "\n(check-sat)\n")
-            path = f.name
-        try:
-            p = subprocess.run(
-                [CVC5, "--strings-exp", f"--tlimit={timeout_ms}", path],
-                capture_output=True,
-                text=True,
-                timeout=timeout_ms / 1000 + 5,
-            )
-            out = (p.stdout or "").strip().splitlines()
-            r = out[0] if out else "error"
-            if r not in ("sat", "unsat", "unknown"):
-                return ("unsupported", None, time.time() - t0, (p.stdout + p.stderr)[:300])
-            return (r, None, time.time() - t0, None)
-        finally:
-            os.unlink(path)
-    except subprocess.TimeoutExpired:
-        return ("unknown", None, time.time() - t0, "timeout")
-    except Exception as e:  # noqa: BLE001
-        return ("error", None, time.time() - t0, repr(e))
+        for b in ("z3", "cvc5"):
+            procs[b] = subprocess.Popen(_cmd(b, path, timeout_s), stdout=subprocess.PIPE, stderr=subprocess.STDOUT, text=True)
+        deadline = t0 + timeout_s + 3
+        pending = dict(procs)
+        while pending and time.time() < deadline:
+            for b, p in list(pending.items()):
+                if p.poll() is not None:
+                    out = p.stdout.read()
+                    r, rest = _parse(out)
+                    results[b] = (r, rest, time.time() - t0)
+                    del pending[b]
+                    if mode == "first" and r in ("sat", "unsat"):
+                        pending_kill = list(pending.values())
+                        for q in pending_kill:
+                            q.kill()
+                        pending = {}
+                        break
+            time.sleep(0.005)
+        for b, p in pending.items():
+            p.kill()
+            results[b] = ("unknown", "timeout (killed)", time.time() - t0)
+    finally:
+        for p in procs.values():
+            try:
+                p.kill()
+            except Exception:  # noqa: BLE001
+                pass
+            try:
+                p.stdout.close()
+            except Exception:  # noqa: BLE001
+                pass
+            p.wait()
+        os.unlink(path)
+    return results
+
+
+def _conjuncts(g, limit=40):
+    out = []
+    todo = [g]
+    while todo:
+        x = todo.pop()
+        if z3.is_and(x) and len(out) + len(todo) < limit:
+            todo.extend(reversed(x.children()))
+        else:
+            out.append(x)
+    return out
+
+
+class _Part:
+    __slots__ = ("ob", "goal", "pc", "smt2", "result", "model", "time", "backend", "note", "cvc5")
+
+    def __init__(self, ob, goal):
+        self.ob, self.goal, self.pc = ob, goal, ob.pc
+        self.result = self.model = self.backend = self.cvc5 = None
+        self.time = 0.0
+        self.note = ""
 
 
 def discharge(obligations, timeout_s=10, jobs=None, both=False):
-    """fills ob.result ('unsat' = discharged, 'sat', 'unknown', 'error'), ob.model, ob.time, ob.backend"""
-    jobs = jobs or min(16, os.cpu_count() or 4)
+    """fills ob.result ('unsat' = discharged, 'sat', 'unknown', 'error', 'disagree'), ob.model (text), ob.time, ob.backend.
+    Conjunctive goals are split into one query per conjunct (an obligation is discharged iff all of them are)."""
+    jobs = jobs or max(2, (os.cpu_count() or 4) // 2)
+    parts_of = {}
     todo = []
     for ob in obligations:
         g = z3.simplify(ob.goal)
         if z3.is_true(g):
             ob.result, ob.backend, ob.time = "unsat", "syntactic", 0.0
             continue
+        ps = [_Part(ob, c) for c in _conjuncts(ob.goal)]
+        parts_of[id(ob)] = ps
         ob.smt2 = to_smt2(ob.pc, ob.goal)
-        todo.append(ob)
+        for p in ps:
+            if z3.is_true(z3.simplify(p.goal)):
+                p.result, p.backend = "unsat", "syntactic"
+            else:
+                p.smt2 = to_smt2(p.pc, p.goal)
+                todo.append(p)
+    _discharge_parts(todo, timeout_s, jobs, both)
+    for ob in obligations:
+        ps = parts_of.get(id(ob))
+        if ps is None:
+            continue
+        ob.subqueries = len(ps)
+        ob.time = sum(p.time for p in ps)
+        bad = [p for p in ps if p.result != "unsat"]
+        if not bad:
+            ob.result = "unsat"
+            bs = {p.backend for p in ps if p.backend != "syntactic"}
+            ob.backend = "+".join(sorted(bs)) if bs else "syntactic"
+            continue
+        for kind in ("disagree", "sat", "error", "unknown"):
+            hit = [p for p in bad if p.result == kind]
+            if hit:
+                p = hit[0]
+                ob.result, ob.backend, ob.model = kind, p.backend, p.model
+                ob.note += p.note + f" [failing conjunct: {str(p.goal)[:200]}]"
+                ob.failed_goal = p.goal
+                break
+
+
+def _discharge_parts(todo, timeout_s, jobs, both):
     if not todo:
         return
-    tm = int(timeout_s * 1000)
-    with ProcessPoolExecutor(max_workers=jobs) as ex:
-        res = list(ex.map(_run_z3, [(ob.smt2, tm, True) for ob in todo], chunksize=1))
-        for ob, (r, model, t, reason) in zip(todo, res):
-            ob.result, ob.model, ob.time, ob.backend = r, model, t, "z3"
-            ob.note = (ob.note + f" [{reason}]") if reason else ob.note
-        second = [ob for ob in todo if both or ob.result in ("unknown", "error")]
-        if second:
-            res2 = list(ex.map(_run_cvc5, [(ob.smt2, tm) for ob in second], chunksize=1))
-            for ob, (r, _m, t, reason) in zip(second, res2):
-                ob.cvc5 = (r, t)
-                if ob.result in ("unknown", "error") and r in ("sat", "unsat"):
-                    ob.result, ob.backend, ob.time = r, "cvc5", ob.time + t
-                elif r in ("sat", "unsat") and ob.result in ("sat", "unsat") and r != ob.result:
-                    ob.result = "disagree"
-                    ob.note += f" [z3={ob.result} cvc5={r}]"
+    # stage 1: quantifier-free hypotheses only (sound: fewer hypotheses), short budget
+    light = [ob for ob in todo if any(_has_quant(p) for p in ob.pc)]
+    if light:
+        with ThreadPoolExecutor(max_workers=jobs) as ex:
+            res1 = list(ex.map(_solve_one, [(to_smt2(ob.pc, ob.goal, light=True), 2, "first") for ob in light]))
+        for ob, rs in zip(light, res1):
+            ok = [b for b, r in rs.items() if r[0] == "unsat"]
+            if ok:
+                ob.result, ob.backend, ob.time = "unsat", ok[0] + "/qf-hyps", min(rs[b][2] for b in ok)
+        todo = [ob for ob in todo if ob.result != "unsat"]
+        if not todo:
+            return
+    mode = "both" if both else "first"
+    with ThreadPoolExecutor(max_workers=jobs) as ex:
+        res = list(ex.map(_solve_one, [(ob.smt2, timeout_s, mode) for ob in todo]))
+    for ob, rs in zip(todo, res):
+        ob.cvc5 = rs.get("cvc5")
+        definite = {b: r for b, r in rs.items() if r[0] in ("sat", "unsat")}
+        answers = {r[0] for r in definite.values()}
+        if len(answers) > 1:
+            ob.result, ob.backend = "disagree", "z3+cvc5"
+            ob.note += f" [z3={rs['z3'][0]} cvc5={rs['cvc5'][0]}]"
+            ob.time = max(r[2] for r in rs.values())
+            continue
+        if definite:
+            b = min(definite, key=lambda k: definite[k][2])
+            ob.result, ob.backend, ob.time = definite[b][0], ("z3+cvc5" if len(definite) == 2 else b), definite[b][2]
+            if ob.result == "sat":
+                ob.model = definite[b][1]
+            continue
+        errs = [f"{b}: {r[1][:200]}" for b, r in rs.items() if r[0] == "error"]
+        if len(errs) == len(rs) and errs:
+            ob.result, ob.backend = "error", "none"
+            ob.note += " [" + "; ".join(errs) + "]"
+        else:
+            ob.result, ob.backend = "unknown", "none"
+            ob.note += " [" + "; ".join(f"{b}={r[0]}:{r[1][:60]}" for b, r in rs.items()) + "]"
+        ob.time = max([r[2] for r in rs.values()] or [0])
